@@ -1247,6 +1247,8 @@ class Interp:
                 return False
             return self.decide(("truth", v), f"{tag}:nonempty({v!r})")
         if isinstance(v, Unknown):
+            if v.positive:
+                return True
             return self.decide(("truth", v.key), f"{tag}:truth({v!r})")
         if isinstance(v, AList):
             return bool(v.items)
